@@ -467,6 +467,24 @@ func c10Scenarios(thorough bool, alphabet []streamFrame, heavy func(fam string) 
 				add("S-C rejected frame, then the pool goes round", streamScenario{Frames: seq, FailAfter: -1, Bound: 0, Devs: true, Policy: pol, ShutAt: -1})
 			}
 		}
+		// more rejected frames than the pool has buffers (55 of them, alternating with frames that parse):
+		// a buffer that is not given back for a rejected frame is missed only when the pool runs dry
+		{
+			var seq []int
+			for i := 0; i < 55; i++ {
+				seq = append(seq, 5, []int{0, 1, 3}[i%3])
+			}
+			var perFrame []int
+			o := 0
+			for _, f := range seq[:len(seq)-1] {
+				o += len(alphabet[f].B)
+				perFrame = append(perFrame, o)
+			}
+			for _, pol := range []string{"reader-first", "consumer-last"} {
+				add("S-C more rejected frames than pool buffers", streamScenario{Frames: seq, Cuts: perFrame, FailAfter: -1, Bound: 0, Devs: true, Policy: pol, ShutAt: -1})
+				add("S-C more rejected frames than pool buffers", streamScenario{Frames: seq, FailAfter: -1, Bound: 0, Devs: true, Policy: pol, ShutAt: -1})
+			}
+		}
 		// short sequences with the rejected kind: all interleavings
 		for _, seq := range [][]int{{5}, {5, 0}, {0, 5}, {5, 5}, {0, 5, 1}, {5, 3, 5}} {
 			var perFrame []int
